@@ -227,7 +227,7 @@ fn judge_query<K: Kit>(q: &Q<K>, b: &mut Batch, road: &[(Vec<f64>, Vec<usize>)],
                 }
             }
             let d0 = q.d(start, &p[1]);
-            let tol = len_tol(q.kit, d0.max(r));
+            let tol = len_tol(q.kit, d0.max(r).max(4.0 * crate::oracle::mag(q.kit.spec(), &[start, &p[1]])));
             let d0 = d0.min(q.d(&p[1], start));
             if !(d0 < r) {
                 q.viol("start-connection-beyond-radius", format!("{label}: first hop {d0} is not below the radius {r}"));
@@ -374,7 +374,7 @@ fn run_case<K: Kit>(ctx: &Ctx, b: &mut Batch, kit: &K, case: &PrmCase) {
                 b.count("links_checked", 1);
                 // both argument orders: only a distance that is >= r either way refutes `d < r`
                 let dik = sp.distance(&states[i], &states[k]).min(sp.distance(&states[k], &states[i]));
-                let tol = len_tol(kit, dik.max(r));
+                let tol = len_tol(kit, dik.max(r).max(4.0 * crate::oracle::mag(kit.spec(), &[&road[i].0, &road[k].0])));
                 if !(dik < r) {
                     if dik == r {
                         b.count("links_at_exactly_the_radius", 1);
